@@ -669,4 +669,8 @@ theorem exact_density_of_graph_tableau_is_graph_state (n : Nat) (adj : Adj) (hsy
     Hilbert.Rep n (DM.stabilizerDensity (LC.graphTab n adj)) (graphStateMat n adj) :=
   Sweep.rep_graph_density n adj hsym hirr
 
+/-- the hypotheses of the cross-reference theorems are met by the triangle graph state -/
+example : 0 < (graphSTab 3 tri).n ∧ (graphSTab 3 tri).Good ∧ (∀ i, i < 3 → tri i i = false) :=
+  ⟨by decide, graphSTab_good 3 tri tri_symm, by decide⟩
+
 end Graphiq.C08
